@@ -288,8 +288,26 @@ def check(run: Run) -> None:
                 run.finding("C15.l", "remove_entry_at_slot:error-erase-without-contains", f"the error output is erased for every removed key (guards: {conj}); it must be "
                             f"guarded by `{want}`: a key that never failed makes the error series tick", loc=fa.loc(c))
 
+    with run.obligation("C15.m", "K7", "a node builder derived for error capture is the SAME node otherwise: NodeBuilder::with_error_capture carries over every builder field its sibling "
+                        "with_passive_inputs carries over (endpoints, output storage, label, the SCALAR configuration) - a field one derivation forgets makes "
+                        "exception_time_series() on a node with scalar parameters un-buildable (or silently differently configured) while the plain node runs"):
+        derived = {}
+        for nm in ("with_error_capture", "with_passive_inputs"):
+            fa_ = R.fn(run, NODE, f"NodeBuilder::{nm}")
+            cn_ = R.Canon()
+            derived[nm] = {cn_(x.l).split(".", 1)[1] for x in fa_.body.walk() if isinstance(x, C.Binary) and x.op == "=" and cn_(x.l).startswith("result.")}
+        run.count(1, "C15.m")
+        run.sample({"rule": "C15.m", "copied": {k: sorted(v) for k, v in derived.items()}})
+        if not derived["with_passive_inputs"] or "scalars_" not in derived["with_passive_inputs"]:
+            raise AnalysisError("model-mismatch", f"C15.m: with_passive_inputs no longer copies the builder fields ({sorted(derived['with_passive_inputs'])})")
+        miss = sorted(derived["with_passive_inputs"] - derived["with_error_capture"])
+        if miss:
+            run.finding("C15.m", f"with_error_capture:builder-fields-not-carried-over:{'+'.join(miss)}", f"NodeBuilder::with_error_capture does not copy {miss} into the derived builder "
+                        "(with_passive_inputs does): a capturing node loses that part of its configuration", loc=NODE)
+
 
 VARIANTS = [
+    {"id": "m-seed-C15-8-capture-builder-drops-scalars", "expect": "C15.m", "edits": [{"file": NODE, "find": "        result.label_           = label_;\n        result.scalars_         = scalars_;\n        return result;", "replace": "        result.label_           = label_;\n        return result;", "nth": 0}]},
     {"id": "l-error-erase-for-every-removed-key", "expect": "C15.l", "edits": [{"file": "src/hgraph/runtime/map_node.cpp", "find": "            if (error_mutation != nullptr && error_mutation->contains(entry->key.view()))", "replace": "            if (error_mutation != nullptr)"}]},
     {"id": "h-revert-fix-failed-cycle-resumed", "expect": "C15.h", "edits": [{"file": "src/hgraph/runtime/graph.cpp", "find": "      !state.evaluation_failed && state.evaluation_cursor != 0 &&\n      state.evaluation_cursor != invalid_cursor;", "replace": "      state.evaluation_cursor != 0 && state.evaluation_cursor != invalid_cursor;"}]},
     {"id": "g-map-handler-stops-child", "expect": "C15.g", "edits": [{"file": MAP, "find": "                                                                         evaluation_time, error);\n                                                     })", "replace": "                                                                         evaluation_time, error);\n                                                         child.stop(evaluation_time);\n                                                     })"}]},
